@@ -495,13 +495,10 @@ impl<'a, R: Clone> AsyncGlobalCache<'a, R> {
         order: &mut MutexGuard<RawMutex, VecDeque<String>>,
     ) -> bool {
         if self.cache.contains_key(key) {
-            // Key already exists, just update the order if LRU or ARC
-            if self.policy == EvictionPolicy::LRU || self.policy == EvictionPolicy::ARC {
-                order.retain(|k| k != key);
-                order.push_back(key.to_string());
-            }
-            // Don't insert again
-            return true;
+            // Key already exists: drop the old entry so that the new value replaces it
+            // (last store wins, as in the sync caches)
+            self.cache.remove(key);
+            order.retain(|k| k != key);
         }
         false
     }
